@@ -15,9 +15,12 @@ import (
 	"github.com/pion/rtp"
 )
 
+type twccExtensionAttributesKeyType int
+
 // TwccExtensionAttributesKey identifies the TWCC value in the attribute collection
-// so we don't need to reparse.
-const TwccExtensionAttributesKey = iota
+// so we don't need to reparse. It has a private type so that it can never collide
+// with a key the application uses in the same attributes map.
+const TwccExtensionAttributesKey twccExtensionAttributesKeyType = iota
 
 var (
 	errMissingTWCCExtension = errors.New("missing transport layer cc header extension")
